@@ -222,6 +222,14 @@ class C16(BaseMonitor):
 
     def step(self, i, op):
         sim = self.sim
+        if op["op"] == "second_system" and op.get("before"):
+            # preparatory creations are ordinary accepted operations: "refused op changed nothing" is judged from here
+            for sub in op["before"]:
+                st, rt = self.execute(sub)
+                if st != "ok":
+                    self.stop = "op_raised"
+                    return "raised"
+            op = {k_: v for k_, v in op.items() if k_ != "before"}
         before = self.live_links()
         sim.expect = None
         status, ret = self.execute(op)
